@@ -27,9 +27,11 @@ CLAIM = {
             "the sources). `spec` is the stand-alone pipeflow, a function of the description by C12. Tied to the "
             "running code by a bit-identical comparison of every row logged by the real run_timeseries.",
     "note": "All theorems closed under the global context. pandapower's run_time_step / run_control / ConstControl / "
-            "OutputWriter are oracles with the behaviour written in coq/C13/Model.v (exercised, not proved). pandapower's "
+            "OutputWriter are oracles with the behaviour written in coq/C13/Model.v (exercised, not proved). Multi-energy "
+            "series: multinet_step_equals_standalone (couplings = a function on input cells, no chains within a step) + "
+            "wiring fact that every net named by a multinet controller is recalculated + multinet monitor. pandapower's "
             "OutputWriter leaves the result matrix row of a failed step at its initial 0.0 and reports the failure in "
-            "Parameters.powerflow_failed; the monitor checks the flag. Multinet time series: wiring facts only.",
+            "Parameters.powerflow_failed; the monitor checks the flag.",
     "technique": "Coq proof over hand-written step model + generated wiring table + bit-identical differential",
     "design": "DESIGN.md 4/C13 + design_notes/C13.md",
 }
